@@ -18,7 +18,7 @@ package store
 //@ pred PGeom(s *BufferedPaginatedStore) := s.pageLenLog2 == 5 && s.pageLenMask == 31 && s.bufferCompactionTriggerLen >= 0 && len(s.pages) <= 268435456
 //@ pred PPagesOK(s *BufferedPaginatedStore) := (forall i int :: 0 <= i && i < len(s.pages) ==> (len(s.pages[i]) == 0 || len(s.pages[i]) == 32)) && (forall i int, j int :: 0 <= i && i < j && j < len(s.pages) && len(s.pages[i]) > 0 && len(s.pages[j]) > 0 ==> arr(s.pages[i]) != arr(s.pages[j]))
 //@ pred PUnused(s *BufferedPaginatedStore) := s.minPageIndex == 9223372036854775807 ==> (forall i int :: 0 <= i && i < len(s.pages) ==> len(s.pages[i]) == 0)
-//@ pred PRange(s *BufferedPaginatedStore) := s.minPageIndex != 9223372036854775807 ==> 0 - 134217728 <= s.minPageIndex && s.minPageIndex + len(s.pages) <= 134217728 && len(s.pages) > 0
+//@ pred PRange(s *BufferedPaginatedStore) := s.minPageIndex != 9223372036854775807 ==> 0 - 268435456 <= s.minPageIndex && s.minPageIndex + len(s.pages) <= 268435456 && len(s.pages) > 0
 //@ pred PNonneg(s *BufferedPaginatedStore) := (forall i int, j int :: 0 <= i && i < len(s.pages) && 0 <= j && j < len(s.pages[i]) ==> s.pages[i][j] >= 0.0) && (forall i int :: 0 <= i && i < len(s.buffer) ==> in32(s.buffer[i]))
 //@ pred PAlloc(s *BufferedPaginatedStore) := (arr(s.buffer) == 0 || allocated(arr(s.buffer))) && (arr(s.pages) == 0 || allocated(arr(s.pages))) && (forall i int :: 0 <= i && i < len(s.pages) ==> arr(s.pages[i]) == 0 || allocated(arr(s.pages[i])))
 //@ pred PInv(s *BufferedPaginatedStore) := s != nil && PGeom(s) && PPagesOK(s) && PUnused(s) && PRange(s) && PNonneg(s) && PAlloc(s)
@@ -41,7 +41,7 @@ package store
 
 //@ func BufferedPaginatedStore.index
 //@   serves C04
-//@   requires s.pageLenLog2 == 5 && 0 - 134217728 <= pageIndex && pageIndex <= 134217728 && 0 <= lineIndex && lineIndex < 32
+//@   requires s.pageLenLog2 == 5 && 0 - 268435456 <= pageIndex && pageIndex <= 268435456 && 0 <= lineIndex && lineIndex < 32
 //@   ensures result == pageIndex * 32 + lineIndex && result >> 5 == pageIndex && result & 31 == lineIndex
 
 //@ func BufferedPaginatedStore.newPagesLen
@@ -60,7 +60,7 @@ package store
 //@ func BufferedPaginatedStore.page
 //@   serves C04
 //@   trusted page-table growth (append/copy over a slice of slices, element pointers) is not yet within the verified subset; contract assumed
-//@   requires PInv(s) && 0 - 67108864 <= pageIndex && pageIndex < 67108864
+//@   requires PInv(s) && 0 - 268435456 <= pageIndex && pageIndex < 268435456
 //@   ensures PInv(s) && PBufSame(s) && footprintStable(s)
 //@   ensures lines: forall k int :: PPage(s, k) == old(PPage(s, k))
 //@   ensures kept: forall p int :: old(PHas(s, p)) ==> PHas(s, p)
@@ -192,3 +192,43 @@ package store
 //@   loop 2 invariant forall i int, j int :: 0 <= i && i < len(s.pages) && 0 <= j && j < len(s.pages[i]) ==> s.pages[i][j] == old(s.pages[i][j]) * ((i < $i1 || (i == $i1 && j < $i2)) ? w : 1.0)
 //@   loop 3 invariant 0 <= $i3 && $i3 <= n0 && len(buffer) == n0 && arr(buffer) == old(arr(s.buffer)) && PInv(s) && len(s.buffer) == 0 && contents(s.buffer) == buf0 && arr(s.buffer) == old(arr(s.buffer)) && footprintStable(s)
 //@   loop 3 invariant forall k int :: PPage(s, k) == old(PPage(s, k)) * w + w * real(OccI(buf0, 0, $i3, k))
+
+// MergeWith: the argument's content is added index-wise; the argument keeps its content. Same-kind fast path
+// (page-wise addition, buffered unit entries re-added one by one) and the generic path through ForEach.
+//@ func BufferedPaginatedStore.MergeWith
+//@   serves C04 C02
+//@   uses OccStepV OccZeroLen OccCopyV
+//@   requires PInv(s) && other != nil && disjoint(s, other)
+//@   requires is(other, *BufferedPaginatedStore) ? PInv(as(other, *BufferedPaginatedStore)) : SInv(other)
+//@   ensures PInv(s) && footprintStable(s)
+//@   ensures same-kind: is(other, *BufferedPaginatedStore) ==> (forall k int :: PView(s, k) == old(PView(s, k)) + old(PView(as(other, *BufferedPaginatedStore), k)))
+//@   ensures same-kind-arg: is(other, *BufferedPaginatedStore) ==> PInv(as(other, *BufferedPaginatedStore)) && (forall k int :: PPage(as(other, *BufferedPaginatedStore), k) == old(PPage(as(other, *BufferedPaginatedStore), k)) && POcc(as(other, *BufferedPaginatedStore), k) == old(POcc(as(other, *BufferedPaginatedStore), k)))
+//@   ensures generic: !is(other, *BufferedPaginatedStore) ==> (forall k int :: PView(s, k) == old(PView(s, k)) + old(SView(other, k)))
+//@   ensures generic-arg: !is(other, *BufferedPaginatedStore) ==> SInv(other) && STot(other) == old(STot(other)) && (forall k int :: SView(other, k) == old(SView(other, k))) && footprintStable(other)
+//@   modifies footprint(s), footprint(other)
+//@   loop 1 invariant 0 <= $i1 && $i1 <= len(o.pages) && ok && PInv(s) && PInv(o) && disjoint(s, other) && footprintStable(s) && len(o.pages) == old(len(as(other, *BufferedPaginatedStore).pages)) && arr(o.pages) == old(arr(as(other, *BufferedPaginatedStore).pages)) && o.minPageIndex == old(as(other, *BufferedPaginatedStore).minPageIndex) && len(o.buffer) == old(len(as(other, *BufferedPaginatedStore).buffer)) && arr(o.buffer) == old(arr(as(other, *BufferedPaginatedStore).buffer)) && o == as(other, *BufferedPaginatedStore)
+//@   loop 1 invariant forall i int :: 0 <= i && i < len(o.pages) ==> len(o.pages[i]) == old(len(as(other, *BufferedPaginatedStore).pages[i])) && arr(o.pages[i]) == old(arr(as(other, *BufferedPaginatedStore).pages[i]))
+//@   loop 1 invariant forall i int, j int :: 0 <= i && i < len(o.pages) && 0 <= j && j < len(o.pages[i]) ==> o.pages[i][j] == old(as(other, *BufferedPaginatedStore).pages[i][j])
+//@   loop 1 invariant forall j int :: 0 <= j && j < len(o.buffer) ==> o.buffer[j] == old(as(other, *BufferedPaginatedStore).buffer[j])
+//@   loop 1 invariant forall k int :: PPage(o, k) == old(PPage(as(other, *BufferedPaginatedStore), k)) && POcc(o, k) == old(POcc(as(other, *BufferedPaginatedStore), k))
+//@   loop 1 invariant forall k int :: POcc(s, k) == old(POcc(s, k))
+//@   loop 1 invariant forall k int :: PPage(s, k) == old(PPage(s, k)) + (((k >> 5) - o.minPageIndex < $i1) ? PPage(o, k) : 0.0)
+//@   loop 2 invariant 0 <= $i2 && $i2 <= 32 && len(oPage) == 32 && ok && oPageIndex == o.minPageIndex + oPageOffset && 0 <= oPageOffset && oPageOffset < len(o.pages) && arr(oPage) == arr(o.pages[oPageOffset]) && off(oPage) == 0
+//@   loop 2 invariant PGeom(s) && PPagesOK(s) && PUnused(s) && PRange(s) && PAlloc(s) && PInv(o) && disjoint(s, other) && footprintStable(s) && len(o.pages) == old(len(as(other, *BufferedPaginatedStore).pages)) && arr(o.pages) == old(arr(as(other, *BufferedPaginatedStore).pages)) && o.minPageIndex == old(as(other, *BufferedPaginatedStore).minPageIndex) && len(o.buffer) == old(len(as(other, *BufferedPaginatedStore).buffer)) && arr(o.buffer) == old(arr(as(other, *BufferedPaginatedStore).buffer)) && o == as(other, *BufferedPaginatedStore)
+//@   loop 2 invariant (forall i int, j int :: 0 <= i && i < len(s.pages) && 0 <= j && j < len(s.pages[i]) ==> s.pages[i][j] >= 0.0) && (forall i int :: 0 <= i && i < len(s.buffer) ==> in32(s.buffer[i]))
+//@   loop 2 invariant PHas(s, oPageIndex) && arr(page) == arr(s.pages[oPageIndex - s.minPageIndex]) && len(page) == 32 && off(page) == 0
+//@   loop 2 invariant forall i int :: 0 <= i && i < len(o.pages) ==> len(o.pages[i]) == old(len(as(other, *BufferedPaginatedStore).pages[i])) && arr(o.pages[i]) == old(arr(as(other, *BufferedPaginatedStore).pages[i]))
+//@   loop 2 invariant forall i int, j int :: 0 <= i && i < len(o.pages) && 0 <= j && j < len(o.pages[i]) ==> o.pages[i][j] == old(as(other, *BufferedPaginatedStore).pages[i][j])
+//@   loop 2 invariant forall j int :: 0 <= j && j < len(o.buffer) ==> o.buffer[j] == old(as(other, *BufferedPaginatedStore).buffer[j])
+//@   loop 2 invariant forall k int :: PPage(o, k) == old(PPage(as(other, *BufferedPaginatedStore), k)) && POcc(o, k) == old(POcc(as(other, *BufferedPaginatedStore), k))
+//@   loop 2 invariant forall k int :: POcc(s, k) == old(POcc(s, k))
+//@   loop 2 invariant forall k int :: PPage(s, k) == old(PPage(s, k)) + ((((k >> 5) - o.minPageIndex < oPageOffset) || ((k >> 5) == oPageIndex && (k & 31) < $i2)) ? PPage(o, k) : 0.0)
+//@   loop 3 invariant 0 <= $i3 && $i3 <= len(o.buffer) && ok && PInv(s) && PInv(o) && disjoint(s, other) && footprintStable(s) && len(o.pages) == old(len(as(other, *BufferedPaginatedStore).pages)) && arr(o.pages) == old(arr(as(other, *BufferedPaginatedStore).pages)) && o.minPageIndex == old(as(other, *BufferedPaginatedStore).minPageIndex) && len(o.buffer) == old(len(as(other, *BufferedPaginatedStore).buffer)) && arr(o.buffer) == old(arr(as(other, *BufferedPaginatedStore).buffer)) && o == as(other, *BufferedPaginatedStore)
+//@   loop 3 invariant forall i int :: 0 <= i && i < len(o.pages) ==> len(o.pages[i]) == old(len(as(other, *BufferedPaginatedStore).pages[i])) && arr(o.pages[i]) == old(arr(as(other, *BufferedPaginatedStore).pages[i]))
+//@   loop 3 invariant forall i int, j int :: 0 <= i && i < len(o.pages) && 0 <= j && j < len(o.pages[i]) ==> o.pages[i][j] == old(as(other, *BufferedPaginatedStore).pages[i][j])
+//@   loop 3 invariant forall j int :: 0 <= j && j < len(o.buffer) ==> o.buffer[j] == old(as(other, *BufferedPaginatedStore).buffer[j])
+//@   loop 3 invariant forall k int :: PPage(o, k) == old(PPage(as(other, *BufferedPaginatedStore), k)) && POcc(o, k) == old(POcc(as(other, *BufferedPaginatedStore), k))
+//@   loop 3 invariant forall k int :: PView(s, k) == old(PView(s, k)) + PPage(o, k) + real(OccI(contents(o.buffer), 0, $i3, k))
+//@   foreach 1 invariant !stopped && PInv(s) && SInv(other) && disjoint(s, other) && footprintStable(s) && footprintStable(other)
+//@   foreach 1 invariant forall k int :: PView(s, k) == old(PView(s, k)) + (visited[k] ? SView(other, k) : 0.0)
+//@   foreach 1 invariant STot(other) == old(STot(other)) && (forall k int :: SView(other, k) == old(SView(other, k)))
